@@ -330,10 +330,15 @@ func c01HoldsAfter(f *core.FuncInfo, from core.Point, v *types.Var) func(*cfg.Bl
 // With Track >= 0 the source's boolean result Track must not be known false on the way: edges on which
 // it is false are not taken, and an overwrite of the variable holding it counts as reaching a target
 // (a later test of that variable speaks about another call).
+//
+// With Neg the tracked result is assumed false instead: edges on which it is true are not taken while the
+// variable still holds that result (an overwrite ends the assumption, it is not a target), and a
+// discarded result merely means that nothing is known.
 type c01DeepQuery struct {
 	Via   func(*core.CallSite) bool // nil: nothing discharges
 	Tgt   func(*core.CallSite) bool
 	Track int
+	Neg   bool
 }
 
 // from returns found (with a witness) or discarded (the tracked result is thrown away).
@@ -357,13 +362,19 @@ func (q c01DeepQuery) from(e c01Effect) (found, discarded bool, wit string) {
 	}
 	if q.Track >= 0 && !tail {
 		sv = c01ResultVar(g, e.Eff.Call, q.Track)
-		if sv == nil {
+		switch {
+		case sv == nil && !q.Neg:
 			return false, true, ""
-		}
-		avoidEdge = g.GuardEdges(c01BoolFact(g, sv, false))
-		for _, a := range assignsToVar(g, sv) {
-			if a.Pt != e.Eff.Pt {
-				targets = append(targets, a.Pt)
+		case sv == nil:
+		case q.Neg:
+			ge, holds := g.GuardEdges(c01BoolFact(g, sv, true)), c01HoldsAfter(g, e.Eff.Pt, sv)
+			avoidEdge = func(b *cfg.Block, s int) bool { return holds(b) && ge(b, s) }
+		default:
+			avoidEdge = g.GuardEdges(c01BoolFact(g, sv, false))
+			for _, a := range assignsToVar(g, sv) {
+				if a.Pt != e.Eff.Pt {
+					targets = append(targets, a.Pt)
+				}
 			}
 		}
 	}
@@ -422,6 +433,8 @@ func (q c01DeepQuery) from(e c01Effect) (found, discarded bool, wit string) {
 			}
 			var m func(core.Fact) bool
 			switch {
+			case ex.Tracked[i] && q.Neg:
+				m = c01BoolFact(F, v, true)
 			case ex.Tracked[i] || ex.Vals[i] == c01AbsTrue:
 				m = c01BoolFact(F, v, false)
 			case ex.Vals[i] == c01AbsFalse:
@@ -436,7 +449,7 @@ func (q c01DeepQuery) from(e c01Effect) (found, discarded bool, wit string) {
 			}
 			ge, holds := F.GuardEdges(m), c01HoldsAfter(F, H.Pt, v)
 			conds = append(conds, func(b *cfg.Block, s int) bool { return holds(b) && ge(b, s) })
-			if ex.Tracked[i] {
+			if ex.Tracked[i] && !q.Neg {
 				for _, a := range assignsToVar(F, v) {
 					if a.Pt != H.Pt {
 						tg = append(tg, a.Pt)
